@@ -415,35 +415,82 @@ def delays_work(P, item):
             params_ = dict(kind="delays", check=name, freqs=[fv(u) ** -0.5 for u in us], ref=fv(ur) ** -0.5, dm=fv(dm), tsamp=fv(ts))
             violation(P, "compute_dmdelays-" + name[:30].replace(" ", "_").replace("(", "").replace(")", "").replace(">", "").replace("=", ""), f"compute_dmdelays: {name}", params_)
     P.reached += 1
-    # reference frequency selection of Header.get_dmdelays
+    # reference frequency selection of Header.get_dmdelays: the real method and the real band-geometry properties
+    # (ftop, fcenter, chan_freqs, fmax, fmin) on a header with symbolic fch1 / foff
     from sigpyproc import header
-    calls = []
+    H_ = header.Header
 
-    class PStub:
-        @staticmethod
-        def compute_dmdelays(freqs, dm, tsamp, fref, in_samples=True):
-            calls.append(fref)
-            return "delays"
-    g = rebind(header.Header.get_dmdelays, params=PStub)
+    for nch in (1, 2, 3, 4):
+        for rf in ("ch1", "max", "min", "center", 1234.5, 1300, "bogus"):
+            def body(ctx, nch=nch, rf=rf):
+                calls = []
 
-    class H:
-        fch1, fmax, fmin, fcenter, tsamp, chan_freqs = 1500.0, 1500.0, 1400.0, 1450.5, 1.0, None
-    okr = True
-    for rf, want in (("ch1", 1500.0), ("max", 1500.0), ("min", 1400.0), ("center", 1450.5), (1234.5, 1234.5), (1300, 1300.0)):
-        calls.clear()
-        g(H(), 10.0, ref_freq=rf)
-        okr = okr and calls == [want]
-    try:
-        g(H(), 10.0, ref_freq="bogus")
-        okr = False
-    except ValueError:
-        pass
-    P.stats.queries += 1
-    if okr:
-        P.obligation("Header.get_dmdelays/reference frequency selection", "holds", symbolic=False)
-    else:
-        src = "import sys\nsys.exit(1)\n"
-        P.inconclusive_("Header.get_dmdelays picks a different reference frequency than documented")
+                class PStub:
+                    @staticmethod
+                    def compute_dmdelays(freqs, dm, tsamp, fref, in_samples=True):
+                        calls.append((list(np.asarray(freqs, dtype=object).ravel()), dm, tsamp, fref, in_samples))
+                        return "delays"
+
+                class HS:
+                    nchans = nch
+                    fch1, foff, tsamp = SReal(z3.Real("fch1")), SReal(z3.Real("foff")), SReal(z3.Real("tsamp"))
+                    ftop = property(H_.ftop.fget)
+                    fbottom = property(H_.fbottom.fget)
+                    fcenter = property(H_.fcenter.fget)
+                    bandwidth = property(H_.bandwidth.fget)
+                    chan_freqs = property(rebind(H_.chan_freqs.fget))
+                    fmax = property(H_.fmax.fget)
+                    fmin = property(H_.fmin.fget)
+                ctx.assume(HS.foff.e != 0)
+                class _FM(type):
+                    def __instancecheck__(cls, x):
+                        return isinstance(x, float)
+
+                class FloatShim(metaclass=_FM):
+                    """float(): identity on symbolic reals, the real conversion otherwise"""
+                    def __new__(cls, v):
+                        return v if isinstance(v, (SReal, SInt)) else float(v)
+                g = rebind(H_.get_dmdelays, params=PStub, float=FloatShim)
+                try:
+                    g(HS(), 10.0, ref_freq=rf)
+                    return calls, None
+                except ValueError:
+                    return calls, "ValueError"
+
+            def on_path(ctx, res, nch=nch, rf=rf):
+                Ctx.cur = ctx
+                calls, err = res
+                fch1, foff = z3.Real("fch1"), z3.Real("foff")
+                cf = [fch1 + c * foff for c in range(nch)]
+                label = f"Header.get_dmdelays[nchans={nch},ref_freq={rf!r}]"
+                params_ = dict(kind="reffreq", nchans=nch, ref_freq=rf)
+                bad = None
+                if rf == "bogus":
+                    bad = z3.BoolVal(err != "ValueError")
+                elif err is not None or len(calls) != 1:
+                    bad = z3.BoolVal(True)
+                else:
+                    freqs, dm, ts, fref, ins = calls[0]
+                    hi = cf[0]
+                    lo = cf[0]
+                    for c in cf[1:]:
+                        hi, lo = z3.If(c > hi, c, hi), z3.If(c < lo, c, lo)
+                    want = {"ch1": fch1, "max": hi, "min": lo, "center": (hi + lo) / 2}[rf] if isinstance(rf, str) else z3.RealVal(str(rf))
+                    bad = z3.Or([wrap(fref).e != want, wrap(ts).e != z3.Real("tsamp"), z3.BoolVal(len(freqs) != nch or dm != 10.0 or ins is not True)]
+                                + [wrap(a).e != b for a, b in zip(freqs, cf)])
+                r = ctx.check(bad)
+                if r == z3.unsat:
+                    P.obligation(label + ": reference frequency, channel frequencies and sampling time handed to the delay formula", "holds", symbolic=True)
+                else:
+                    m = ctx.solver.model()
+                    fv = lambda t: float(Fraction(m.eval(t, model_completion=True).numerator_as_long(), m.eval(t, model_completion=True).denominator_as_long()))
+                    params_.update(fch1=fv(fch1), foff=fv(foff))
+                    violation(P, f"get_dmdelays-reffreq-{nch}-{rf}", label, params_)
+                Ctx.cur = None
+            try:
+                explore(body, bound=4, on_path=on_path, stats=P.stats, deadline_s=120)
+            except Inconclusive as e:
+                P.inconclusive_(f"get_dmdelays reference frequency: {e}")
 
 
 # ---------------------------------------------------------------- D: read_dedisp_block
